@@ -51,7 +51,7 @@ def replay(d):
         for k in ("on", "after"):
             if r.get(k):
                 r[k]["out"] = tuple(r[k]["out"])
-    obs = D.observe_frame(d["version"], routes, raw, async_validation=d.get("async_validation", False), send_ok=(d.get("info") or {}).get("send_ok", True), prelude=(d.get("info") or {}).get("prelude"))
+    obs = D.observe_frame(d["version"], routes, raw, async_validation=d.get("async_validation", False), send_ok=(d.get("info") or {}).get("send_ok", True), prelude=(d.get("info") or {}).get("prelude"), send_style=(d.get("info") or {}).get("send_style"))
     print("observation:", obs)
     bad = ORACLE(d.get("stratum", "replay"), d["version"], routes, raw, obs, d.get("info"))
     print("FAILS: %s" % bad if bad else "HOLDS (for the recorded stratum %r)" % d.get("stratum"))
